@@ -60,6 +60,7 @@ def mk_obj(it, module, clsname, **fields):
     cls = it.get_global(module, clsname)
     o = Obj(cls, it.ctx.new_id())
     o.fields.update(fields)
+    o.synthetic = True
     return o
 
 
